@@ -129,7 +129,10 @@ func (ts *tcpSession) close() {
 
 func (g *gen) tcpFail(ms []rscp.Message) replySpec {
 	items := encItems(ms)
-	switch g.pick(5) {
+	switch g.pick(7) {
+	case 5, 6:
+		// the connection is closed inside a cipher block of the reply
+		return replySpec{behaviour{kind: "closeInside", k: 101 + g.pick(62), items: items}, "X"}
 	case 0:
 		return replySpec{behaviour{kind: "closeBefore"}, "X"}
 	case 1:
@@ -252,7 +255,7 @@ func init() {
 				ops = append(ops, c.op())
 				res = append(res, r)
 				if strings.Contains(r, "undecodable") {
-					prop = "FAIL C06 an independent peer cannot decrypt a frame of the client: " + trunc(r, 140)
+					addVerdict(&prop, "FAIL C06 an independent peer cannot decrypt a frame of the client: "+trunc(r, 140))
 				}
 				if strings.HasPrefix(r, "panic") || strings.HasPrefix(r, "hang") {
 					prop = "FAIL * client call " + strings.SplitN(r, " ", 2)[0]
@@ -260,10 +263,17 @@ func init() {
 				// against a healthy exchange the call must succeed with this call's reply
 				if c.kind != "D" && c.auth.beh.kind == "ok" && c.user.beh.kind == "ok" && strings.HasPrefix(c.auth.model, "F [ M 8388609 3 n u8 10") {
 					want := "ok " + msgsString(replyFor(c.reqs, k))
-					if !strings.HasPrefix(r, want+" @") && prop == "pass" {
-						// only a refused authentication on a kept connection may precede; the model decides the rest
+					if !strings.HasPrefix(r, want+" @") {
 						if !strings.HasPrefix(r, "err") {
-							prop = "FAIL C06 healthy exchange did not return its reply: " + trunc(r, 140)
+							addVerdict(&prop, "FAIL C06 healthy exchange did not return its reply: "+trunc(r, 140))
+						} else if rscp.VerifValidateRequests(c.reqs) == nil && !strings.Contains(prop, "FAIL C08") {
+							// C08: whatever happened before (failed calls, disconnects, new connections), a valid
+							// request against a healthy peer succeeds
+							addVerdict(&prop, "FAIL C08 no recovery: a valid request against a healthy peer over a real connection gives "+trunc(r, 120))
+							if strings.HasPrefix(r, "err invalid") || strings.HasPrefix(r, "err version") || strings.HasPrefix(r, "err dataLimit") {
+								// the peer encrypted a well-formed reply with a fresh IV on a new connection / the chained state on a kept one
+								addVerdict(&prop, "FAIL C06 the client cannot decode the reply of a peer that follows the encryption scheme: "+trunc(r, 120))
+							}
 						}
 					}
 				}
@@ -272,5 +282,14 @@ func init() {
 			cw.add(fmt.Sprintf("hist %s %s | %s", hexOf([]byte(user)), hexOf([]byte(pw)), strings.Join(ops, " | ")), strings.Join(res, " | "),
 				fmt.Sprintf("N tcp keylen=%d depth=%d", keyLen, depth), prop)
 		}
+	}
+}
+
+// addVerdict records one more failed oracle for a case (verdicts of several properties are separated by " ;; ")
+func addVerdict(prop *string, v string) {
+	if *prop == "pass" {
+		*prop = v
+	} else if !strings.Contains(*prop, v[:12]) {
+		*prop += " ;; " + v
 	}
 }
